@@ -10,7 +10,7 @@ def _p_stat(case, obs):
 SPEC = {
     "ties": [{
         "name": "searches", "group": "hsearch", "key": "SEARCH", "tags": ["C05"],
-        "n_quick": 500, "n_thorough": 20000, "min_per_shard": 30, "timeout": 6000,
+        "n_quick": 224, "n_thorough": 20000, "min_per_shard": 14, "timeout": 6000,
         "nontrivial": search_nontrivial, "stat": search_stat,
     }, {
         "name": "process-watchdog", "group": "huci", "key": "C05P", "model": False, "tags": ["C05"],
